@@ -137,8 +137,13 @@ Norm(v) == CASE v.t = "uobj" -> Obj(v.k, [i \in 1..Len(v.v) |-> Norm(v.v[i])])
              [] v.t = "obj" -> Obj(v.k, [i \in 1..Len(v.v) |-> Norm(v.v[i])])
              [] v.t = "arr" -> Arr([i \in 1..Len(v.a) |-> Norm(v.a[i])])
              [] OTHER -> v
+\* only JSON values have a documented order (a number-as-string result or Unspec inside a value has none)
+RECURSIVE Plain(_)
+Plain(v) == CASE v.t \in {"uobj", "obj"} -> \A i \in 1..Len(v.v) : Plain(v.v[i])
+              [] v.t = "arr" -> \A i \in 1..Len(v.a) : Plain(v.a[i])
+              [] OTHER -> v.t \in {"null", "bool", "str", "num"}
 VEq(a, b) == JEq(Norm(a), Norm(b))
-VCmp(a, b) == JCmp(Norm(a), Norm(b))
+VCmp(a, b) == IF Plain(a) /\ Plain(b) THEN JCmp(Norm(a), Norm(b)) ELSE 2
 \* nothing sorts before everything (sort_by examples)
 KCmp(a, b) == IF IsN(a) /\ IsN(b) THEN 0 ELSE IF IsN(a) THEN -1 ELSE IF IsN(b) THEN 1 ELSE VCmp(a, b)
 \* comparison modes (RECURSIVE operators cannot take operator arguments): "v" values, "k" keys with nothing first, "n" numbers as strings
